@@ -18,6 +18,7 @@ import (
 	"github.com/acquirecloud/golibs/kvs/inmem"
 	"github.com/acquirecloud/golibs/logging"
 	gsync "github.com/acquirecloud/golibs/sync"
+	"github.com/acquirecloud/golibs/timeout"
 )
 
 // C05: the lease of the distributed lock, observed in real time.
@@ -202,6 +203,7 @@ type leaseScenario struct {
 	FaultAt int    // k-th CAS
 	Fault   string // lost | replylost | ""
 	Phase   int    // death / unlock offset inside the renewal cycle, in 1/8 of TTL/2
+	Distant bool   // an unrelated, much later timer is pending (and the dispatcher asleep towards it) when the lock is acquired
 }
 
 func runLeaseScenario(sc leaseScenario) (*leaseSys, bool) {
@@ -213,6 +215,11 @@ func runLeaseScenario(sc leaseScenario) (*leaseSys, bool) {
 	holder.fac.faultOdd = sc.FaultAt < 0
 	s.events[0]["kind"] = sc.Kind
 	s.events[0]["fault"] = sc.Fault
+	if sc.Distant {
+		fu := timeout.Call(func() {}, 20*sc.TTL)
+		defer fu.Cancel()
+		time.Sleep(30 * time.Millisecond) // let the dispatcher go to sleep towards it
+	}
 	if !holder.locker.TryLock(context.Background()) {
 		s.log(map[string]any{"e": "harness-error", "what": "initial TryLock failed"})
 		return s, false
@@ -345,6 +352,26 @@ func driveLease(opt *Options) error {
 	defer w.Flush()
 	var wmu sync.Mutex
 	stats := map[string]int{}
+	// solo phase: the lock is the only user of the timer package besides one distant timer
+	if opt.Extra["mode"] != "replylost" {
+		for _, ttl := range ttls[:1] {
+			sc := leaseScenario{Kind: "hold", TTL: ttl, Periods: 3, Distant: true}
+			for attempt := 0; attempt < 3; attempt++ {
+				s, ok := runLeaseScenario(sc)
+				if ok {
+					stats["scenarios"]++
+					for _, e := range s.events {
+						b, _ := json.Marshal(e)
+						w.Write(b)
+						w.WriteByte('\n')
+						stats["events"]++
+					}
+					break
+				}
+				stats["stalled_discarded"]++
+			}
+		}
+	}
 	var wg sync.WaitGroup
 	sem := make(chan struct{}, 6) // few at a time: these runs are timing-sensitive
 	for _, sc := range scs {
